@@ -57,7 +57,7 @@ def make_filter(spec, rec, inc):
                 if k >= spec.get('n', 10 ** 9):
                     self.exit('source done')
                 rec.add(fid, inc, 'gen', k)
-                mk = lambda: {t: Frame({'o': fid, 's': k, 'p': [fid], 't': t}) for t in spec.get('topics', ['main'])}
+                mk = lambda: {t: Frame({'o': fid, 's': k, 'p': ['%s#%d' % (fid, inc)], 't': t}) for t in spec.get('topics', ['main'])}
                 if spec.get('lazy'):
                     def deferred():
                         rec.add(fid, inc, 'lazy-eval', k)
@@ -83,7 +83,7 @@ def make_filter(spec, rec, inc):
                 if t.startswith('_'):
                     continue
                 d = dict(fr.data or {})
-                d['p'] = list(d.get('p', [])) + [fid]
+                d['p'] = list(d.get('p', [])) + ['%s#%d' % (fid, inc)]
                 out[spec.get('rename', {}).get(t, t)] = Frame(d)
             if spec.get('as_frame') and list(out) == ['main']:
                 return out['main']
